@@ -231,6 +231,18 @@ theorem inorder_subtree (cmp : α → α → Ordering) (p : Pos α) (ho : Ordere
   rw [MdsVerif.Proofs.Cursor.inorder_subtree]
   exact ⟨rfl, ho.sub p.dirs⟩
 
+/-- a consumer that stops early sees a prefix: `Inorder` stopped once it holds `j` keys yields the
+first `max j 1` keys of the subtree (the consumer always receives the first key) -/
+theorem inorder_stopped (p : Pos α) (stop : Option Nat) :
+    inorder (some p) stop = MdsVerif.Spec.SortedSet.stopped stop p.cur.toList :=
+  MdsVerif.Proofs.Cursor.inorder_stopped p stop
+
+/-- the model's `Tree.Cursor` follows the very path C01's model of `node.pathTo` returns -/
+theorem cursor_follows_pathTo (cmp : α → α → Ordering) (k : α) (t : Tree α) :
+    pathTo cmp k t = ((List.range ((pathDirs cmp k t).length + 1)).map
+      fun i => sub t ((pathDirs cmp k t).take i)).filter (fun u => !isNil u) :=
+  pathTo_eq cmp k t
+
 /-- **operations on an invalid or nil cursor are harmless no-ops yielding the zero key** -/
 theorem invalid_noop [Inhabited α] :
     let c : Cursor α := none
